@@ -213,6 +213,74 @@ def gray_sequence_ok(labels: List[int], cyclic: bool) -> bool:
     return all(bin(a ^ b).count("1") == 1 for a, b in pairs)
 
 
+_cur = [0]
+
+
+def array_gray_evaluated(rep: Report, fi: FuncInfo, fname: str, scalar: str) -> None:
+    """A vectorised array form: (1) the integer words may not pass through floating point (true division, float casts:
+    float32 keeps 24 bits, float64 53, the maps must be bijections on all non-negative integers); (2) the body is run
+    (own arithmetic) on small and large words and compared with the scalar definition."""
+    from ..frag import FragRaise, FragReturn, run_fragment
+
+    what = f"{fname}: vectorised form"
+    for x in ast.walk(fi.node):
+        fl = None
+        if isinstance(x, ast.BinOp) and isinstance(x.op, ast.Div):
+            fl = x
+        elif isinstance(x, ast.Call) and call_name(x) in ("torch.true_divide",):
+            fl = x
+        elif isinstance(x, ast.Call) and call_name(x) == "torch.div" and not any(k.arg == "rounding_mode" for k in x.keywords):
+            fl = x
+        elif isinstance(x, ast.Call) and isinstance(x.func, ast.Attribute) and x.func.attr in ("float", "double", "half") and not x.args:
+            fl = x
+        if fl is not None:
+            rep.violation("GRAY-UTIL", fi, f"{what}: {unparse(fl)}", "the integer words pass through floating point (true division of an integer tensor gives float32: 24 significant bits), so words above 2^24 lose their low bits: the array form disagrees with the scalar form and is no longer a bijection", node=fl)
+            return
+    param = fi.params[0]
+    words = list(range(0, 40)) + [2**24 + 1, 2**30 + 3, 2**40 + 12345, 2**53 + 1]
+    if scalar == "binary_to_gray":
+        want = [w ^ (w >> 1) for w in words]
+    else:
+        want = []
+        for w in words:
+            r, sft = w, w >> 1
+            while sft:
+                r ^= sft
+                sft >>= 1
+            want.append(r)
+    try:
+        run_fragment(fi.body, {param: words}, {}, max_steps=400000, materialise=True)
+        rep.undecided("GRAY-UTIL", fi, what, "no value returned")
+        return
+    except FragReturn as r:
+        got = r.value
+    except (Unfoldable, FragRaise, TypeError) as exc:
+        rep.undecided("GRAY-UTIL", fi, what, f"outside the evaluator ({exc})")
+        return
+    if got == want:
+        rep.ok("GRAY-UTIL", fi, what, f"integer-only; agrees with {scalar} on {len(words)} words up to 2^53 + 1")
+    else:
+        k = next((i for i, (a, b) in enumerate(zip(got, want)) if a != b), 0) if isinstance(got, list) and len(got) == len(want) else 0
+        rep.violation("GRAY-UTIL", fi, what, f"for the word {words[k]} the array form gives {got[k] if isinstance(got, list) and len(got) == len(want) else got!r}; {scalar} gives {want[k]}", node=fi.node)
+
+
+def evaluated_table(fi: FuncInfo, M: int, gray: bool, flag: str):
+    """bit_patterns of order M as a list of label integers, from running the constructor body; or a reason string."""
+    from ..frag import FragRaise, FragReturn, run_fragment
+
+    b = M.bit_length() - 1
+    try:
+        env = run_fragment(fi.body, {}, {flag: gray, "self.order": M, "self._bits_per_symbol": b, "self.bits_per_symbol": b}, max_steps=400000, materialise=True)
+    except (Unfoldable, FragRaise) as exc:
+        return str(exc) or type(exc).__name__
+    except FragReturn:
+        return "constructor returns a value"
+    bp = env.get("bit_patterns")
+    if not (isinstance(bp, list) and len(bp) == M and all(isinstance(r, list) and len(r) == b and all(x in (0, 1, 0.0, 1.0) for x in r) for r in bp)):
+        return f"bit_patterns is not an {M} x {b} 0/1 table"
+    return [int("".join(str(int(x)) for x in r), 2) for r in bp]
+
+
 def rule_generated(repo: Repo, rep: Report) -> int:
     n = 0
     specs = [
@@ -238,9 +306,22 @@ def rule_generated(repo: Repo, rep: Report) -> int:
                     continue
                 construct = f"{cname}(gray_coding={gray}): label of index i = binary({unparse(g[1])})"
             elif g not in ("id", "gray"):
-                rep.undecided("GENERATED-TABLE", fi, construct, "label generator not recognised", node=node)
-                n += 1
-                continue
+                # unlisted construction: run the constructor body (own arithmetic) for every order and read the table
+                tables = {}
+                why = None
+                for M in orders:
+                    tb = evaluated_table(fi, M, gray, flag)
+                    if isinstance(tb, str):
+                        why = tb
+                        break
+                    tables[M] = tb
+                if why is not None:
+                    rep.undecided("GENERATED-TABLE", fi, construct, f"label generator not recognised and the table is not evaluable ({why})", node=node)
+                    n += 1
+                    continue
+                custom = lambda i, _t=tables: _t[_cur[0]][i]  # noqa: E731
+                g = ("table",)
+                construct = f"{cname}(gray_coding={gray}): label table evaluated from the constructor body"
             # position permutation: are the physical positions re-indexed?
             perm = position_permutation(fi, atoms)
             if perm is None:
@@ -251,6 +332,7 @@ def rule_generated(repo: Repo, rep: Report) -> int:
             pfun = {"id": (lambda i: i), "gray": gf2.gray}[perm]
             bad_orders = []
             for M in orders:
+                _cur[0] = M
                 lab_of_index = [gfun(i) for i in range(M)]
                 pos_of_index = [pfun(i) for i in range(M)]
                 if sorted(lab_of_index) != list(range(M)) or sorted(pos_of_index) != list(range(M)):
@@ -439,7 +521,10 @@ def rule_gray_utils(repo: Repo, rep: Report) -> int:
         ok = len(calls) == 1 and call_name(calls[0]) == scalar
         loops = [s for s in stmts_of(fi.body) if isinstance(s, ast.For)]
         okl = len(loops) == 1 and match(loops[0], f"for _I, _N in enumerate(_T):\n    _O[_I] = {scalar}(int(_N))") is not None
-        rep.shape(ok and okl, bool(calls) and any(call_name(c_) != scalar for c_ in calls), "GRAY-UTIL", fi, f"{fname}: elementwise {call_name(calls[0]) if calls else '?'}", "array form = scalar form applied to every element, in place order", f"{fname} is not the elementwise application of {scalar}", node=loops[0] if loops else fi.node)
+        if not (ok and okl) and not calls:
+            array_gray_evaluated(rep, fi, fname, scalar)
+        else:
+            rep.shape(ok and okl, bool(calls) and any(call_name(c_) != scalar for c_ in calls), "GRAY-UTIL", fi, f"{fname}: elementwise {call_name(calls[0]) if calls else '?'}", "array form = scalar form applied to every element, in place order", f"{fname} is not the elementwise application of {scalar}", node=loops[0] if loops else fi.node)
         n += 1
     for fname in ("binary_to_gray", "gray_to_binary"):
         lint_value_keyed(rep, repo.func(UT, fname), rule="G1", allowed_literals={0, 1, -1})
